@@ -228,6 +228,30 @@ func c08Hostile(rng *rand.Rand, quick bool) []c08Input {
 		ch := xchunk{Comp: c, CSize: int64(len(c)), RSize: 1 << 50}
 		add("xflate", "huge-rawsize", assemble([]xchunk{ch}, idxOpts{}, "XF\x00", meta.FinalStream))
 	}
+	// records that declare more (or less) raw data than their chunk inflates to, for empty chunks
+	// and chunks with data, at every position among honest chunks (a Reader that trusts the record
+	// keeps coming back to the same chunk)
+	for it := 0; it < 24; it++ {
+		var cs []xchunk
+		n := 1 + rng.Intn(4)
+		liar := rng.Intn(n)
+		for k := 0; k < n; k++ {
+			d := vhlib.RandBytes(rng, []int{0, 0, 1, 30}[rng.Intn(4)])
+			if k == liar && it%2 == 0 {
+				d = nil
+			}
+			c := deflateChunk(d, []int{0, 6}[rng.Intn(2)])
+			ch := xchunk{Comp: c, CSize: int64(len(c)), RSize: int64(len(d))}
+			if k == liar {
+				ch.RSize += []int64{1, 2, 40, 1 << 20, 1 << 50, -1}[it%6]
+				if ch.RSize < 0 {
+					ch.RSize = 1
+				}
+			}
+			cs = append(cs, ch)
+		}
+		add("xflate", "rawsize-disagrees-with-chunk", assemble(cs, idxOpts{}, "XF\x00", meta.FinalStream))
+	}
 	// ---- brotli
 	add("brotli", "wbits24-empty", []byte{0x1f, 0x03}[:2])
 	add("brotli", "mlen-16M-tiny-input", vhlib.UnHex("020000004458e017c0ffff3f"))
